@@ -360,6 +360,22 @@ func (m *QuestionModel) verifyChoiceMatch(answer Answer) error {
 			return fmt.Errorf("%w (%s): expected %q: answer %q matches question: %q == %q", ErrWrongAnswer, m.Filename(), answer.correctAnswers(), indexToLetter(i), strings.TrimSuffix(output, "\n"), strings.TrimSuffix(generated, "\n"))
 		}
 	}
+	return m.verifyMarkedExist(correctByIndex, len(outputs))
+}
+
+// verifyMarkedExist returns an error if a choice is marked correct that is
+// not among the n existing choices. Such a mark is never looked at by the
+// loops over the choices.
+func (m *QuestionModel) verifyMarkedExist(correctByIndex map[int]bool, n int) error {
+	missing := -1
+	for i := range correctByIndex {
+		if i >= n && (missing == -1 || i < missing) {
+			missing = i
+		}
+	}
+	if missing != -1 {
+		return fmt.Errorf("%w (%s): answer %q does not exist, there are only %d choices", ErrWrongAnswer, m.Filename(), indexToLetter(missing), n)
+	}
 	return nil
 }
 
@@ -386,7 +402,7 @@ func (m *QuestionModel) verifyParseError(answer Answer) error {
 			return fmt.Errorf("%w: %s: answer %s should not have parse error", ErrWrongAnswer, m.Filename(), indexToLetter(i))
 		}
 	}
-	return nil
+	return m.verifyMarkedExist(correctByIndex, len(parseErrors))
 }
 
 func (m *QuestionModel) verifyNoParseError(answer Answer) error {
@@ -400,7 +416,7 @@ func (m *QuestionModel) verifyNoParseError(answer Answer) error {
 			return fmt.Errorf("%w: %s: answer %s should have parse error", ErrWrongAnswer, m.Filename(), indexToLetter(i))
 		}
 	}
-	return nil
+	return m.verifyMarkedExist(correctByIndex, len(parseErrors))
 }
 
 func generateAnserOutputs(renderers []Renderer) []string {
